@@ -14,6 +14,7 @@ import Gv.Proofs.ClustalNoHang
 import Gv.Proofs.PhylipNoHang
 import Gv.Proofs.ClustalPos
 import Gv.Proofs.PartitionOutcome
+import Gv.Proofs.PhylipHeader
 /-!
 C03 — parsers terminate on every input with an error or a well-formed result.
 
@@ -583,5 +584,154 @@ theorem clustal_outcome_fixed (o : POpts) (bs : List Byte) : Good (Clustal.parse
   | exit => trivial
   | panic => rw [hp] at h1; exact h1
   | hang => rw [hp] at h1; exact h1
+
+/-! ## Phylip: a success agrees with the counts of the header line; the end-of-stream marker needs a blank input -/
+
+/-- **Phylip, counts as the parser read them** (strict and relaxed, every option, with or without the allocation
+repair, ALL byte strings): a successful parse went through a header line `nbseq lenseq`, and the alignment handed back
+has exactly `lenseq` columns and `nbseq` rows — at most `nbseq` rows under the two duplicate policies that drop rows
+(IGNORE_NAME / IGNORE_SEQUENCE); under IGNORE_NONE duplicate names are renamed, never dropped: the `_%04d` search
+always finds a free name (pigeonhole over `|rows| + 1` pairwise distinct candidates). -/
+theorem phylip_counts_as_read (af : Bool) (o : POpts) (bs : List Byte) (a : Aln)
+    (h : Phylip.parse af o bs = .ok (some a)) :
+    ∃ n l sh, Phylip.header af { inp := bs } = .ok (.counts n l, sh) ∧
+      a.length = l ∧ (a.rows.length : Int) ≤ n ∧ (normIgnore o.ignore = 0 → (a.rows.length : Int) = n) := by
+  unfold Phylip.parse at h
+  cases hp : Phylip.parseOne af o { inp := bs } with
+  | error e => rw [hp] at h; cases e <;> simp [Phylip.toOutcome] at h
+  | ok v =>
+    obtain ⟨r, s'⟩ := v
+    rw [hp] at h
+    cases r with
+    | aln a' =>
+      simp only [Phylip.toOutcome, Outcome.ok.injEq, Option.some.injEq] at h
+      subst h
+      exact Gv.Proofs.PhylipHeader.parseOne_counts af o _ s' a' hp
+    | eos => simp [Phylip.toOutcome] at h
+    | slow => simp [Phylip.toOutcome] at h
+
+/-- **Phylip, consistency with the declared counts**: whenever the deliberately naive header scanner of
+`Spec/Fmt.lean` (first two decimal numbers of the file, independent of any lexer) finds counts `(dn, dl)` in the raw
+bytes, a successful parse has `dl` columns and `dn` rows (at most `dn` under a duplicate policy that drops rows).
+This is the `contradicts-header-nbseq` / `contradicts-header-length` clause of the oracle predicate, proved for the
+model over ALL byte strings and options. -/
+theorem phylip_header_consistent (af : Bool) (o : POpts) (bs : List Byte) :
+    match Phylip.parse af o bs with
+    | .ok (some a) =>
+      match Spec.Fmt.declaredPhylip bs with
+      | some (dn, dl) => Spec.Fmt.rowsOk (normIgnore o.ignore != 0) (a.rows.length : Int) dn = true ∧ a.length = dl
+      | none => True
+    | _ => True := by
+  unfold Phylip.parse
+  cases hp : Phylip.parseOne af o { inp := bs } with
+  | error e => cases e <;> simp [Phylip.toOutcome]
+  | ok v =>
+    obtain ⟨r, s'⟩ := v
+    cases r with
+    | aln a => simp only [Phylip.toOutcome]; exact Gv.Proofs.PhylipHeader.parseOne_declared af o bs s' a hp
+    | eos => simp [Phylip.toOutcome]
+    | slow => simp [Phylip.toOutcome]
+
+/-- **Phylip, end-of-stream marker**: `(nil, nil)` is returned only for an input that holds nothing but blanks up to
+its first NUL (NUL is the lexers' in-band end-of-input marker: an input without NUL must be blank up to EOF) -/
+theorem phylip_eos_blank (af : Bool) (o : POpts) (bs : List Byte) (h : Phylip.parse af o bs = .ok none) :
+    Spec.Fmt.blankToNul bs = true := by
+  unfold Phylip.parse at h
+  cases hp : Phylip.parseOne af o { inp := bs } with
+  | error e => rw [hp] at h; cases e <;> simp [Phylip.toOutcome] at h
+  | ok v =>
+    obtain ⟨r, s'⟩ := v
+    rw [hp] at h
+    cases r with
+    | aln a' => simp [Phylip.toOutcome] at h
+    | eos => exact Gv.Proofs.PhylipHeader.parseOne_eos_blank af o bs s' hp
+    | slow => simp [Phylip.toOutcome] at h
+
+/-- an input without NUL: blank up to EOF -/
+theorem phylip_eos_blank_to_eof (af : Bool) (o : POpts) (bs : List Byte) (h0 : ∀ b ∈ bs, b ≠ 0)
+    (h : Phylip.parse af o bs = .ok none) : bs.all Spec.Fmt.isBlank = true := by
+  have := phylip_eos_blank af o bs h
+  unfold Spec.Fmt.blankToNul at this
+  have ht : ∀ l : List Byte, (∀ b ∈ l, b ≠ 0) → l.takeWhile (· != 0) = l := by
+    intro l
+    induction l with
+    | nil => intro _; rfl
+    | cons x t ih =>
+      intro hl
+      have hx : (x != 0) = true := by simpa using hl x (by simp)
+      rw [List.takeWhile_cons, if_pos hx, ih (fun b hb => hl b (by simp [hb]))]
+  rw [ht bs h0] at this
+  exact this
+
+/-- every alignment that `ParseMultiple` hands on went through a header line of its own and has the declared number
+of columns and (at most / exactly) the declared number of rows -/
+theorem phylip_multi_counts (af : Bool) (o : POpts) : ∀ (fuel : Nat) (s : Phylip.St) (acc : List Aln),
+    (∀ a ∈ acc, ∃ s0 n l sh, Phylip.header af s0 = .ok (.counts n l, sh) ∧ a.length = l ∧ (a.rows.length : Int) ≤ n ∧
+      (normIgnore o.ignore = 0 → (a.rows.length : Int) = n)) →
+    match Phylip.parseMulti af o fuel s acc with
+    | .done als _ => ∀ a ∈ als, ∃ s0 n l sh, Phylip.header af s0 = .ok (.counts n l, sh) ∧ a.length = l ∧
+        (a.rows.length : Int) ≤ n ∧ (normIgnore o.ignore = 0 → (a.rows.length : Int) = n)
+    | _ => True := by
+  intro fuel
+  induction fuel with
+  | zero => intro s acc _; simp [Phylip.parseMulti]
+  | succ f ih =>
+    intro s acc hacc
+    unfold Phylip.parseMulti
+    cases h : Phylip.parseOne af o s with
+    | error e => cases e <;> first | exact hacc | trivial
+    | ok v =>
+      obtain ⟨r, s'⟩ := v
+      cases r with
+      | aln a =>
+        simp only
+        apply ih
+        intro x hx
+        simp only [List.mem_append, List.mem_singleton] at hx
+        cases hx with
+        | inl hx => exact hacc x hx
+        | inr hx =>
+          subst hx
+          obtain ⟨n, l, sh, hh⟩ := Gv.Proofs.PhylipHeader.parseOne_counts af o s s' x h
+          exact ⟨s, n, l, sh, hh⟩
+      | eos => exact hacc
+      | slow => trivial
+
+/-- **Phylip with the repairs of commit 74f5867, the complete C03 statement** over all ASCII byte strings and options:
+an explicit error, an exit with a message (lone `\r`), the end-of-stream marker (then the input is blank up to its
+first NUL), or an alignment that is well formed AND agrees with the counts declared in the header line; never a
+panic, never a hang. -/
+theorem phylip_outcome_full (o : POpts) (bs : List Byte) :
+    match Phylip.parse false o bs with
+    | .ok (some a) =>
+      Spec.Fmt.wellFormed a.length a.rows = true ∧
+      (match Spec.Fmt.declaredPhylip bs with
+       | some (dn, dl) => Spec.Fmt.rowsOk (normIgnore o.ignore != 0) (a.rows.length : Int) dn = true ∧ a.length = dl
+       | none => True)
+    | .ok none => Spec.Fmt.blankToNul bs = true
+    | .error | .exit => True
+    | .panic | .hang => False := by
+  have h1 := phylip_outcome_fixed o bs
+  have h2 := phylip_header_consistent false o bs
+  have h3 := phylip_eos_blank false o bs
+  cases hp : Phylip.parse false o bs with
+  | ok r =>
+    cases r with
+    | some a => rw [hp] at h1 h2; exact ⟨h1, h2⟩
+    | none => exact h3 hp
+  | error => trivial
+  | exit => trivial
+  | panic => rw [hp] at h1; exact h1
+  | hang => rw [hp] at h1; exact h1
+
+/-- non-vacuity: ` 2 3\na ACG\na A-T\n` (duplicate name, IGNORE_NONE: renamed, two rows as declared; IGNORE_NAME: one row) -/
+example : Phylip.parse false {} [32, 50, 32, 51, 10, 97, 32, 65, 67, 71, 10, 97, 32, 65, 45, 84, 10] =
+    .ok (some ⟨1, 3, [([97], [65, 67, 71]), ([97, 95, 48, 48, 48, 49], [65, 45, 84])]⟩) := by decide
+example : Phylip.parse false { ignore := 1 } [32, 50, 32, 51, 10, 97, 32, 65, 67, 71, 10, 97, 32, 65, 45, 84, 10] =
+    .ok (some ⟨1, 3, [([97], [65, 67, 71])]⟩) := by decide
+example : Spec.Fmt.declaredPhylip [32, 50, 32, 51, 10, 97, 32, 65, 67, 71, 10, 97, 32, 65, 45, 84, 10] = some (2, 3) := by decide
+/-- blanks, then NUL, then anything: the end-of-stream marker; ` \n x`: an error, not the marker -/
+example : Phylip.parse false {} [32, 10, 0, 65] = .ok none ∧ Spec.Fmt.blankToNul [32, 10, 0, 65] = true := by decide
+example : Phylip.parse false {} [32, 10, 32, 120] = .error := by decide
 
 end Gv.Props.C03
